@@ -30,6 +30,7 @@ type Opts struct {
 	Grammar Grammar
 	Special bool // allow the special 2D profile leaves (cams, flange, rack, spiral, threads, text)
 	NoPoly  bool // no polygon leaves
+	NoBlend bool // no PolyMin/PolyMax blends
 	NoText  bool // no text leaves (their internals use the pruned 2D union)
 }
 
@@ -250,14 +251,14 @@ func (x *gen) rigid2(k *Node) *Node {
 }
 
 func (x *gen) blendMin() (string, []float64) {
-	if x.intr("blend", 0, 3) == 0 {
+	if !x.o.NoBlend && x.intr("blend", 0, 3) == 0 {
 		return "PolyMin", []float64{g.LogUniform(x.t, x.lbl("k"), 1e-3*x.o.S, x.o.S)}
 	}
 	return "", nil
 }
 
 func (x *gen) blendMax() (string, []float64) {
-	if x.intr("blend", 0, 3) == 0 {
+	if !x.o.NoBlend && x.intr("blend", 0, 3) == 0 {
 		return "PolyMax", []float64{g.LogUniform(x.t, x.lbl("k"), 1e-3*x.o.S, x.o.S)}
 	}
 	return "", nil
@@ -522,4 +523,16 @@ func (x *gen) node2(depth int) *Node {
 		return &Node{Op: "centerscale2", K: []*Node{x.node2(depth - 1)}, P: []float64{g.LogUniform(x.t, x.lbl("k"), 0.2, 5)}}
 	}
 	panic("node2: " + op)
+}
+
+// Place3 wraps a program in a random rigid placement (rotation, mirror, translation).
+func Place3(t *rapid.T, n *Node, S float64) *Node {
+	x := &gen{t: t, o: Opts{S: S}, c: 100000}
+	return x.rigid3(n)
+}
+
+// Place2 wraps a 2D program in a random rigid placement.
+func Place2(t *rapid.T, n *Node, S float64) *Node {
+	x := &gen{t: t, o: Opts{S: S}, c: 100000}
+	return x.rigid2(n)
 }
